@@ -468,7 +468,14 @@ def cmp_fact(cond, outcome):
         break
     if n.get("k") == "BinaryOperator" and n.get("op") in NEG:
         rel = n["op"] if pos else NEG[n["op"]]
-        return n["c"][0], rel, n["c"][1]
+        l, r = n["c"][0], n["c"][1]
+        # `(x = e) == c` is a statement about x (the assignment has happened)
+        ls, rs = strip_all(l), strip_all(r)
+        if ls is not None and ls.get("k") == "BinaryOperator" and ls.get("op") == "=":
+            l = ls["c"][0]
+        if rs is not None and rs.get("k") == "BinaryOperator" and rs.get("op") == "=":
+            r = rs["c"][0]
+        return l, rel, r
     if n.get("k") == "CXXOperatorCallExpr" and n.get("op") in NEG and len(n["c"]) == 3:
         rel = n["op"] if pos else NEG[n["op"]]
         return n["c"][1], rel, n["c"][2]
